@@ -34,10 +34,14 @@ def history(rng, d, icvn):
         icn = '%09d' % icns[a]
         h.append(docgen.isa(icn, d, icvn))
         gcns = rng.sample(range(1, 9999), 3)
+        if rng.random() < 0.06:
+            gcns = [gcns[0]] * 3
         ng = rng.randint(0, 3)
         for g in range(ng):
             h.append(docgen.seg(d, 'GS', 'HC', 'S', 'R', '20030828', '1128', str(gcns[g]), 'X', '004010X098A1'))
             scns = rng.sample(range(1, 9999), 4)
+            if rng.random() < 0.12:
+                scns = [scns[0]] * 4          # every set of the group re-uses one control number (sets merged from several files)
             ns = rng.randint(0, 3)
             for s in range(ns):
                 h.append(docgen.seg(d, 'ST', '837', '%04d' % scns[s]))
@@ -51,6 +55,80 @@ def history(rng, d, icvn):
         if rng.random() < 0.7 or a < n_isa - 1:
             h.append(docgen.seg(d, 'IEA', rng.choice(['0', '1', '5']), rng.choice([icn, '000000000'])))
     return h
+
+
+def has_reused_ids(h, ds):
+    seen_st, seen_gs, seen_isa = set(), set(), set()
+    for s in h:
+        p = s.split(ds[1])
+        if p[0] == 'ISA':
+            if p[13] in seen_isa:
+                return True
+            seen_isa.add(p[13])
+            seen_gs = set()
+        elif p[0] == 'GS':
+            if p[6] in seen_gs:
+                return True
+            seen_gs.add(p[6])
+            seen_st = set()
+        elif p[0] == 'ST':
+            if p[2] in seen_st:
+                return True
+            seen_st.add(p[2])
+    return False
+
+
+def independent_recount(text, wd):
+    """trailer counts and ids of a written text against a plain recount: -> [(key, message)]"""
+    T, E = wd[0], wd[1]
+    segs = [x.lstrip('\r\n') for x in text.split(T)]
+    segs = [x for x in segs if x.strip('\r\n ') != '']
+    bad = []
+    isa = gs = st = None
+    n_gs = n_st = n_seg = 0
+    open_levels = []
+    for s in segs:
+        p = s.split(E)
+        sid = p[0]
+        get = lambda i: p[i] if i < len(p) else None
+        if sid == 'ISA':
+            isa, n_gs = get(13), 0
+            open_levels.append('ISA')
+        elif sid == 'GS':
+            gs, n_st = get(6), 0
+            n_gs += 1
+            open_levels.append('GS')
+        elif sid == 'ST':
+            st, n_seg = get(2), 1
+            n_st += 1
+            open_levels.append('ST')
+        elif sid == 'SE':
+            n_seg += 1
+            if get(1) != str(n_seg):
+                bad.append(('SE01', 'SE01 is %r, the set holds %d segments' % (get(1), n_seg)))
+            if get(2) != st:
+                bad.append(('SE02', 'SE02 is %r, ST02 was %r' % (get(2), st)))
+            if not open_levels or open_levels.pop() != 'ST':
+                bad.append(('nesting', 'SE without open set'))
+        elif sid == 'GE':
+            if get(1) != str(n_st):
+                bad.append(('GE01', 'GE01 is %r, the group holds %d sets' % (get(1), n_st)))
+            if get(2) != gs:
+                bad.append(('GE02', 'GE02 is %r, GS06 was %r' % (get(2), gs)))
+            if not open_levels or open_levels.pop() != 'GS':
+                bad.append(('nesting', 'GE without open group'))
+        elif sid == 'IEA':
+            if get(1) != str(n_gs):
+                bad.append(('IEA01', 'IEA01 is %r, the interchange holds %d groups' % (get(1), n_gs)))
+            if get(2) != isa:
+                bad.append(('IEA02', 'IEA02 is %r, ISA13 was %r' % (get(2), isa)))
+            if not open_levels or open_levels.pop() != 'ISA':
+                bad.append(('nesting', 'IEA without open interchange'))
+        else:
+            n_seg += 1
+    if open_levels:
+        bad.append(('unclosed', 'left open at the end: %r' % open_levels))
+    return bad
 
 
 def run(ctx, report):
@@ -118,9 +196,21 @@ def run(ctx, report):
             continue
         env = [e for p in ro.split('|')[1:] for e in (p[1:] if p.startswith('C') else p.rpartition(':')[2]).split(',')
                if e and e.split('/')[0] in ('isa', 'gs', 'st')]
+        # re-used control numbers in the history are the caller's: the reader rightly reports them (st/23, gs/6 ...), the writer
+        # cannot repair them; the counts are judged by the independent recount below
+        if has_reused_ids(h, ds):
+            report.count('history-with-reused-control-numbers')
+            env = []
         if env:
             report.fail('C11:envelope-errors:%s' % '+'.join(sorted(set('/'.join(e.split('/')[:2]) for e in env))),
                         'written text re-read with envelope errors %r' % env[:6], {'wd': wd, 'history': h, 'lx': lx},
+                        text=text[:600])
+            continue
+        # the same counts by a recount that shares no code with the reader (the reader and the writer share X12Base)
+        bad = independent_recount(text, wd)
+        report.count('independent-recount')
+        if bad:
+            report.fail('C11:recount:%s' % bad[0][0], 'written text: %s' % '; '.join(b[1] for b in bad[:4]), {'wd': wd, 'history': h, 'lx': lx},
                         text=text[:600])
             continue
         src = pyx12.x12file.X12Reader(io.StringIO(text))
